@@ -90,9 +90,59 @@ package loader
 //@   unverified maps and slices of structs, factories behind interfaces: outside the generator's subset (see C10/C13 notes)
 //@   ensures forall j int :: 0 <= j && j < len(res) ==> res[j] != nil
 
+// C13/C16 — the filters of a configuration. strToIPNet hands every configured prefix, in
+// order, to net.ParseCIDR and keeps exactly the networks it accepts (none dropped, none nil);
+// newPrefixFilter asks every network for its text and stores it as a key of a fresh map;
+// createPrefixFilters builds the deny filter from c.PrefixDeny and the allow filter from
+// c.PrefixAllow, each from its own parsed list. (What ParseCIDR accepts and what
+// IPNet.String prints is package net's business.)
+//@ func strToIPNet(prefixes []string) (res []*net.IPNet)
+//@   ghostset parsedOK 0
+//@   ghostset parseCalls 0
+//@   modifies ghost.parsedOK, ghost.parseCalls
+//@   after net.ParseCIDR : ghost.parsedOK = ghost.parsedOK + (ret1 != nil ? 1 : 0)
+//@   after net.ParseCIDR : ghost.parseCalls = ghost.parseCalls + 1
+//@   before net.ParseCIDR : 0 <= ghost.parseCalls && ghost.parseCalls < len(prefixes) && arg0 == prefixes[ghost.parseCalls]
+//@   ensures ghost.parseCalls == len(prefixes)
+//@   ensures len(res) == ghost.parsedOK
+//@   ensures forall j int :: 0 <= j && j < len(res) ==> res[j] != nil
+//@   loop 1 invariant -1 <= rangeindex && rangeindex < len(prefixes)
+//@   loop 1 invariant ghost.parseCalls == rangeindex + 1 && len(allowed) == ghost.parsedOK
+//@   loop 1 invariant forall j int :: 0 <= j && j < len(allowed) ==> allowed[j] != nil
+
+//@ func newPrefixFilter(prefixes []*net.IPNet) (f *prefixFilter)
+//@   ghostset strCalls 0
+//@   requires forall j int :: 0 <= j && j < len(prefixes) ==> prefixes[j] != nil
+//@   modifies ghost.strCalls, ghost.lastStr
+//@   after IPNet.String : ghost.strCalls = ghost.strCalls + 1
+//@   after IPNet.String : ghost.lastStr = ret0
+//@   before IPNet.String : 0 <= ghost.strCalls && ghost.strCalls < len(prefixes) && arg0 == prefixes[ghost.strCalls]
+//@   ensures f != nil && fresh(f) && f.known != nil
+//@   ensures ghost.strCalls == len(prefixes)
+//@   ensures len(prefixes) == 0 ==> len(f.known) == 0
+//@   ensures len(prefixes) > 0 ==> has(f.known, ghost.lastStr)
+//@   ensures len(f.known) <= len(prefixes)
+//@   loop 1 invariant -1 <= rangeindex && rangeindex < len(prefixes)
+//@   loop 1 invariant f != nil && f.known != nil && ghost.strCalls == rangeindex + 1 && len(f.known) <= rangeindex + 1
+//@   loop 1 invariant rangeindex >= 0 ==> has(f.known, ghost.lastStr)
+//@   loop 1 invariant rangeindex < 0 ==> len(f.known) == 0
+
 //@ func (l *Loader) createPrefixFilters(c config.ServerConfig) (deny *prefixFilter, allow *prefixFilter)
-//@   unverified builds the two filters from c.PrefixDeny / c.PrefixAllow (net.ParseCIDR); only its being called is tracked
+//@   ghostset s2nCalls 0
+//@   ghostset npfCalls 0
+//@   requires l != nil && l.loggerProvider != nil
+//@   modifies ghost.s2nCalls, ghost.npfCalls, ghost.nets1, ghost.nets2, ghost.filt1, ghost.filt2, ghost.parsedOK, ghost.parseCalls, ghost.strCalls, ghost.lastStr
+//@   before strToIPNet : arg0 == (ghost.s2nCalls == 0 ? c.PrefixDeny : c.PrefixAllow)
+//@   after strToIPNet : ghost.nets1 = (ghost.s2nCalls == 0 ? ret0 : ghost.nets1)
+//@   after strToIPNet : ghost.nets2 = (ghost.s2nCalls == 1 ? ret0 : ghost.nets2)
+//@   after strToIPNet : ghost.s2nCalls = ghost.s2nCalls + 1
+//@   before newPrefixFilter : arg0 == (ghost.npfCalls == 0 ? ghost.nets1 : ghost.nets2) && ghost.s2nCalls > ghost.npfCalls
+//@   after newPrefixFilter : ghost.filt1 = (ghost.npfCalls == 0 ? ret0 : ghost.filt1)
+//@   after newPrefixFilter : ghost.filt2 = (ghost.npfCalls == 1 ? ret0 : ghost.filt2)
+//@   after newPrefixFilter : ghost.npfCalls = ghost.npfCalls + 1
 //@   ensures deny != nil && allow != nil
+//@   ensures ghost.s2nCalls == 2 && ghost.npfCalls == 2 && deny == ghost.filt1 && allow == ghost.filt2
+//@   ensures deny != allow
 
 //@ func (l *Loader) updates()
 //@   ghostset needFilters 0
